@@ -918,6 +918,8 @@ fn scenarios() -> Vec<Vec<Op>> {
     // the last removal of an exhausted slot happens while another slot is waiting in the free list
     out.push(parse_ops("new; new; cycle 1 32767; remove 0; remove 32768; new; new; new; remove 32769; new; new"));
     out.push(parse_ops("new; new; new; cycle 2 32767; remove 0; remove 1; remove 32769; new; new; new; new; remove 32770; remove 32771; new; new"));
+    // a node removed at the end of its slot's generation range is still a removed node
+    out.push(parse_ops("new; new; cycle 1 32767; remove 32768; checked_append 0 32768; checked_insert_after 0 32768; append 32768 0; new; checked_prepend 32768 0"));
     // clear with pending free slots
     out.push(parse_ops("new; new; new; remove 1; clear; new; new; new; remove 0; new; new"));
     out
